@@ -123,9 +123,31 @@ def check_zone(ctx, tz, label, kind, z, model, rng):
         ctx.sample({'zone': label, 'kind': kind, 'offset_changes': len(model.transitions())})
 
 
+def check_subsecond_offsets(ctx, tz):
+    """fixed offsets given as timedeltas with a fraction of a second, several of them alive under one name: each zone
+    must convert with exactly the offset it was asked for"""
+    UTC = tz.UTC
+    base = D.timedelta(minutes=19, seconds=32)
+    deltas = [base, base + D.timedelta(milliseconds=130), base + D.timedelta(microseconds=1), base - D.timedelta(microseconds=1),
+              -base, -base - D.timedelta(milliseconds=500), D.timedelta(seconds=0.5), D.timedelta(seconds=-0.25)]
+    zones = [(d, tz.tzoffset('AMT', d)) for d in deltas]          # all kept alive together
+    for d, z in zones:
+        for u in (D.datetime(1937, 6, 30, 23, 59, 59, 999999), D.datetime(2020, 1, 1, 12, 0, 0, 5)):
+            ctx.ev()
+            ctx.count('subsecond_offset_probes')
+            ctx.distinct('subsecond|%s' % d)
+            l = u.replace(tzinfo=UTC).astimezone(z)
+            case = {'zone': 'tzoffset(AMT, %r)' % (d,), 'utc_iso': u.isoformat()}
+            if l.utcoffset() != d or l.replace(tzinfo=None) - u != d or l.astimezone(UTC).replace(tzinfo=None) != u:
+                ctx.violation('conversion', case, 'asked for offset %s: utcoffset() %s, wall - UTC %s, back-conversion %s'
+                              % (d, l.utcoffset(), l.replace(tzinfo=None) - u, l.astimezone(UTC).replace(tzinfo=None).isoformat()))
+
+
 def run(ctx):
     from dateutil import relativedelta, tz
     hits = {}
+    if ctx.shard == 0:
+        check_subsecond_offsets(ctx, tz)
     unhook = tzzoo.install_hit_counters(hits)
     try:
         for label, kind, z, model, cleanup in TM.iter_zones(ctx, tz, relativedelta, ctx.rng, ctx.tier):
